@@ -2,6 +2,7 @@ import ShellOp.Util
 import ShellOp.Model.Retry
 import ShellOp.Model.HookOutput
 import ShellOp.Model.Wait
+import ShellOp.Model.Payload
 import ShellOp.Generated.Facts
 /-! Line-protocol suite for C04 (retry / back-off / allowFailure). Core-only.
 
@@ -22,6 +23,12 @@ oracle begin q=<q> task=<id> gap=<ns> ctxs=…  → retry of a failed task: same
 oracle nocombine q=<q> ctxs=… queue=<ids>  → (C07.6) ungrouped Synchronization head: own contexts, queue untouched
 oracle end q=<q> ok=… task=<id> ctxs=… sleep=<ns> after=<id>,<af>,<ctxs>|…   → the property clauses
 ```
+`pay=<ev>/<objs>/<snaps>;…` on the `oracle begin` / `oracle end` lines: per context of `ctxs`, what the
+hook's context file carried (`Payload.Pay`; lists of numbers the harness interned: watch event and
+object+filterResult of an Event, members of `objects`, entries of `snapshots`). The retry of a failed run
+must show every context of the failed run again WITH what it carried (`Payload.shownAgain`,
+`Payload.eventsKept`): Event members identical, objects / snapshot entries a superset (they are re-read
+from the monitors; the harness only ever creates objects).
 `cancel q=<q>` → `wait=<0|1> pending=<0|1>`: a `CancelTaskDelay()` call (the harness makes it only while
 the handler of the queue runs: no wait in progress, nothing stays pending). `exit=sig<n>`: the hook
 process was terminated by signal n (no exit status).
@@ -51,6 +58,7 @@ structure QSt where
   running : Option (Retry.State × List Task) := none   -- state at `begin`, tasks appended since
   lastFailed : Option (Nat × Nat) := none              -- (task id, back-off) of a failure that must be retried
   lastObs : List Ctx := []                             -- contexts the hook showed in the last failed run
+  lastPay : Option (List (Ctx × Payload.Pay)) := none  -- … with what the context file carried for each
 
 structure St where
   versions : List (Nat × Nat) := []
@@ -78,6 +86,18 @@ def parseCtxs (s : String) : Option (List Ctx) :=
 
 def showCtxs (l : List Ctx) : String :=
   if l.isEmpty then "-" else String.intercalate ";" (l.map fun c => s!"{c.binding}:{c.typ}:{c.group}")
+
+def parsePay (s : String) : Option Payload.Pay :=
+  match s.splitOn "/" with
+  | [e, o, n] => do some { ev := ← natList? e, objs := ← natList? o, snaps := ← natList? n }
+  | _ => none
+
+/-- `pay=…` aligned with the contexts (`none`: malformed, or not one entry per context). -/
+def parsePays (s : String) (ctxs : List Ctx) : Option (List (Ctx × Payload.Pay)) := do
+  let ps ← if s == "-" || s == "" then some [] else (s.splitOn ";").mapM parsePay
+  if ps.length != ctxs.length then none else some (ctxs.zip ps)
+
+def showPay (p : Payload.Pay) : String := s!"{showNats p.ev}/{showNats p.objs}/{showNats p.snaps}"
 
 /-- The hook's view of contexts: a grouped context has `type: Group` (2) whatever it was. -/
 def hookView (l : List Ctx) : List Ctx := l.map fun c => if c.group != 0 then { c with typ := 2 } else c
@@ -295,7 +315,7 @@ def step (st : St) (toks : List String) : St × String :=
           | t :: _ =>
             if s1.items.any (·.id == t.id) then ("fail", s1.fc t.id, some (t.id, s1.sleep))
             else ("success", s1.fc t.id, none)
-        let st' := st.setQ qn { s := s2, running := none, lastFailed := lastFailed, lastObs := q.lastObs }
+        let st' := st.setQ qn { s := s2, running := none, lastFailed := lastFailed, lastObs := q.lastObs, lastPay := q.lastPay }
         let noexec := match s0.items with
           | t :: _ => t.typ != 0 || !t.hasMeta
           | [] => false
@@ -314,7 +334,19 @@ def step (st : St) (toks : List String) : St × String :=
         else if bo < st.boInit then (st, "false backoff-shorter-than-initial")
         else if gap < bo then (st, s!"false retried-before-backoff-elapsed backoff={bo}")
         else if !missing.isEmpty then (st, s!"false retry-lost-contexts missing={showCtxs missing}")
-        else (st, "true")
+        else
+          -- "the same binding contexts are executed again": also what each context carried
+          match (st.q qn).lastPay, kv? "pay" rest with
+          | some old, some ps =>
+            match parsePays ps ctxs with
+            | none => (st, "bad-op pay")
+            | some new =>
+              match Payload.firstMissing old new with
+              | some (c, p) => (st, s!"false retry-shows-other-payload ctx={showCtxs [c]} failed-run-had={showPay p}")
+              | none =>
+                if !Payload.eventsKept old new then (st, "false retry-shows-fewer-event-contexts")
+                else (st, "true")
+          | _, _ => (st, "true")
     | _, _, _, _ => (st, "bad-op")
   | "oracle" :: "nocombine" :: rest =>
     -- C07.6 on the real operator, asked after `begin`: an ungrouped kubernetes Synchronization head
@@ -342,7 +374,9 @@ def step (st : St) (toks : List String) : St × String :=
       | none => (st, "bad-op not-running")
       | some (s0, _) =>
         -- remember what the hook was shown: the retry must show it again (up to group compaction)
-        let st' := st.setQ qn { st.q qn with lastObs := if ok then [] else ctxs }
+        let pays := (kv? "pay" rest).bind (parsePays · ctxs)
+        if (kv? "pay" rest).isSome && pays.isNone then (st, "bad-op pay") else
+        let st' := st.setQ qn { st.q qn with lastObs := if ok then [] else ctxs, lastPay := if ok then none else pays }
         let ver := match s0.items with
           | t :: _ => st.cfg.version t.hook
           | [] => 1
